@@ -33,7 +33,7 @@ func canon(compression string, raw []byte, setCL *primitive.ConsistencyLevel) ([
 	}
 	fr.Header.StreamId = 0
 	fr.SetCompress(false)
-	return world.EncodeFrame("", fr), nil
+	return world.TryEncodeFrame("", fr)
 }
 
 // C12 — the write-consistency override rewrites exactly the consistency of matching writes.
